@@ -156,3 +156,89 @@ def e3_interp(tc, names, stubs=None, lazy=False):
     tc.dom = dom
     V.set_domain(dom)
     return dom, Interp(tc.program, dom, tc.lib, stubs=stubs or {})
+
+
+def to_z3(dom, v, zv):
+    """element of Q(gens) -> (numerator, denominator) as z3 real polynomials over the variables zv[name]"""
+    import z3
+    f = dom.lift(v)
+
+    def poly(pl):
+        acc = z3.RealVal(0)
+        for mon, c in pl.terms():
+            t = z3.RealVal(str(Fraction(int(c.numerator), int(c.denominator))))
+            for g, e in zip(dom.gens, mon):
+                for _ in range(e):
+                    t = t * zv[g]
+            acc = acc + t
+        return acc
+    return poly(f.numer), poly(f.denom)
+
+
+def nra_stable(tc, E, dom, A, hyps_fn, clause, timeout_ms=30000):
+    """discharge   hyps  and  z^p + A[0] z^(p-1) + ... + A[p-1] = 0   =>   |z| < 1   over the reals (z = u + iv) with z3's non-linear
+    arithmetic, where A are the coefficients the REAL code returned in the exact domain (elements of Q(gens)).  Denominators of the
+    coefficients are hypothesised non-zero (the code divided by them).  Vacuity guard: hyps and p(z) = 0 must be satisfiable.
+    A counter-model (values of the generators) is handed to the native oracle of E, which recomputes the roots with numpy."""
+    import z3
+    zv = {g: z3.Real(g) for g in dom.gens}
+    u, v = z3.Real("z_re"), z3.Real("z_im")
+    hyps = list(hyps_fn(zv))
+    # one common denominator L for all coefficients: the root condition is the polynomial identity
+    #   L z^p + N_1 z^(p-1) + ... + N_p = 0  with L != 0  (no division handed to the solver)
+    parts = []
+    for c in A:
+        c = V.Cx.of(c)
+        parts.append((dom.lift(c.re), dom.lift(c.im)))
+    L = None
+    for fr, fi in parts:
+        for f in (fr, fi):
+            L = f.denom if L is None else L.lcm(f.denom)
+
+    def poly(pl):
+        acc = z3.RealVal(0)
+        for mon, cf in pl.terms():
+            t = z3.RealVal(str(Fraction(int(cf.numerator), int(cf.denominator))))
+            for g, e in zip(dom.gens, mon):
+                for _ in range(e):
+                    t = t * zv[g]
+            acc = acc + t
+        return acc
+    Lz = poly(L) if L is not None else z3.RealVal(1)
+    hyps.append(Lz != 0)
+    re_, im_ = Lz, z3.RealVal(0)
+    for fr, fi in parts:
+        nr, ni = poly(fr.numer * (L // fr.denom)), poly(fi.numer * (L // fi.denom))
+        re_, im_ = re_ * u - im_ * v + nr, re_ * v + im_ * u + ni
+    root = [z3.simplify(re_) == 0, z3.simplify(im_) == 0]
+    s = z3.Solver()
+    s.set("timeout", timeout_ms)
+    s.push()
+    s.add(hyps + root)
+    vac = s.check()
+    s.pop()
+    if vac != z3.sat:
+        rr = tc.add_result(clause + ":hypotheses-reachable", "unknown" if vac == z3.unknown else "refuted", backend="z3-nra",
+                           detail="the hypotheses of the stability obligation are not jointly satisfiable with p(z) = 0: vacuous")
+        rr.clause = clause + ":hypotheses-reachable"
+        return None
+    s.add(hyps + root + [u * u + v * v >= 1])
+    res = s.check()
+    if res == z3.unsat:
+        rr = tc.add_result(clause, "proved", backend="z3-nra")
+    elif res == z3.sat:
+        m = s.model()
+
+        def val_(x):
+            q = m.eval(x, model_completion=True)
+            if z3.is_algebraic_value(q):
+                q = q.approx(20)
+            return str(Fraction(q.numerator_as_long(), q.denominator_as_long()))
+        pt = {g: val_(zv[g]) for g in dom.gens}
+        rr = tc.add_result(clause, "refuted", backend="z3-nra", model=dict(E.hints, point=pt, z=[val_(u), val_(v)]),
+                           detail="a root of the returned polynomial on or outside the unit circle under the hypotheses")
+        rr.replay = (E.native, dict(E.hints, point=pt))
+    else:
+        rr = tc.add_result(clause, "unknown", backend="z3-nra", detail="no verdict within %d s" % (timeout_ms // 1000))
+    rr.clause = clause
+    return res == z3.unsat
